@@ -80,7 +80,10 @@ func VH_C08_Paren() {
 var vhC08Exprs = []string{
 	"4", "a", "a and b", "a or z", "not z", "a ? 1 : 2", "z ? 1 : 2", "a + b * c", "(a + b) * c", "a ~ b", "a == b", "a < b and b < c",
 	"-a + b", "(-a + b)", "a - -b", "'x' ~ 'y'", "' in '", "'a=b'", "' with '", "' as '", "[a, b][1]", "{'k': a}['k']", "a|abs", "(a - c)|abs",
-	"a in [1, 2, 3]", "'b' in 'abc'", "'abc' starts with 'a'", "'abc' ends with 'c'", "max(a, b)", "a is odd", "a is not even", "a  +   b", "a+b", "a b" + "",
+	"a in [1, 2, 3]", "'b' in 'abc'", "'abc' starts with 'a'", "'abc' ends with 'c'", "max(a, b)", "a is odd", "a is not even", "a  +   b", "a+b",
+	// delimiter characters inside string literals, nested hashes and arrays
+	"a ~ '{'", "'}' ~ a", "'{{' ~ a", "'}}'", "'%}' ~ '{%'", "\"#}\" ~ '{#'", "{'k': '}'}['k']", "{'a': {'b': a}}['a']['b']", "[[a, b], [c]][0][1]", "'\\'' ~ a", "\"\\\"\" ~ a",
+	"a b" + "",
 }
 
 // positions: %E is the expression
